@@ -342,6 +342,15 @@ class Engine:
         # functions in which every loop must have a LoopSpec
         self.spec_required = set()
         self.comp_handlers = {}  # type of the iterable -> handler
+        self.strict_loops = True
+        self.spec_missing = []
+        # loops over concrete sequences in functions with loop contracts
+        self.concrete_loops = {
+            ('ddsmt.smtlib.collect_information',
+             'for id in range(len(sorts))'),
+            ('ddsmt.strategy_hierarchical.reduce',
+             'for passid in range(len(passes))'),
+        }
         self.call_hooks = {}
         self.sources = {}
         self.steps = 0
@@ -762,6 +771,19 @@ class Engine:
 
     def _need_spec(self, s):
         key = getattr(s, '_loop_key', None)
+        if key is not None and key[0] not in self.spec_required and \
+                self.strict_loops and any(
+                    k[0] == key[0] for k in self.loop_specs):
+            # a function whose other loops are under contract: a loop
+            # without one (and not known to run over a concrete sequence)
+            # means the loop structure changed
+            self.spec_missing.append(key)
+            if key not in self.concrete_loops:
+                raise Unsupported(
+                    f'loop {key[1]!r} of {key[0]} has no invariant although '
+                    'other loops of the function have one (the loop '
+                    'structure differs from the one the contract was '
+                    'written for)')
         if key is not None and key[0] in self.spec_required:
             raise Unsupported(
                 f'loop {key[1]!r} of {key[0]} has no invariant (the loop '
